@@ -460,7 +460,13 @@ func init() {
 				completed = false
 			}
 			if completed {
-				r.Extra["deepest_pass_completed"] = fmt.Sprintf("pass %d of %d: <=%d deviations, environment events inside a reconcile: %v", pi+1, len(passes), pass.bound, pass.interleave)
+				// per shard process; summed by the parent: the pass is complete iff every shard completed it
+				k := fmt.Sprintf("shards_that_completed_pass_%d_of_%d_(<=%d_deviations,_events_inside_a_reconcile_%v)_sum", pi+1, len(passes), pass.bound, pass.interleave)
+				if v, ok := r.Extra[k].(float64); ok {
+					r.Extra[k] = v + 1
+				} else {
+					r.Extra[k] = 1.0
+				}
 			}
 		}
 	})
